@@ -101,6 +101,7 @@ def _child(root: str, cfg: dict, wfd: int, crash: dict | None):
         kw = dict(cfg)
         if kw.get("max_failures") is None:
             kw.pop("max_failures", None)
+        kw.setdefault("capture", "fd")
         session = B.build(paths=[Path(root)], **kw)
         out = {"exit": int(session.exit_code), "tasks": snap.tasks}
         out["reports"] = [(r.task.signature, r.outcome.name) for r in getattr(session, "execution_reports", [])]
